@@ -68,7 +68,7 @@ func (x Expr) Has(data any) bool {
 				default:
 					if rt := reflect.TypeOf(v); rt != nil {
 						switch rt.Kind() {
-						case reflect.Ptr, reflect.Slice, reflect.Struct, reflect.Array:
+						case reflect.Ptr, reflect.Slice, reflect.Struct, reflect.Array, reflect.Map:
 							stack = append(stack, v)
 						}
 					}
@@ -118,7 +118,7 @@ func (x Expr) Has(data any) bool {
 				default:
 					if rt := reflect.TypeOf(v); rt != nil {
 						switch rt.Kind() {
-						case reflect.Ptr, reflect.Slice, reflect.Struct, reflect.Array:
+						case reflect.Ptr, reflect.Slice, reflect.Struct, reflect.Array, reflect.Map:
 							stack = append(stack, v)
 						}
 					}
@@ -142,7 +142,7 @@ func (x Expr) Has(data any) bool {
 						default:
 							if rt := reflect.TypeOf(v); rt != nil {
 								switch rt.Kind() {
-								case reflect.Ptr, reflect.Slice, reflect.Struct, reflect.Array:
+								case reflect.Ptr, reflect.Slice, reflect.Struct, reflect.Array, reflect.Map:
 									stack = append(stack, v)
 								}
 							}
@@ -166,7 +166,7 @@ func (x Expr) Has(data any) bool {
 						default:
 							if rt := reflect.TypeOf(v); rt != nil {
 								switch rt.Kind() {
-								case reflect.Ptr, reflect.Slice, reflect.Struct, reflect.Array:
+								case reflect.Ptr, reflect.Slice, reflect.Struct, reflect.Array, reflect.Map:
 									stack = append(stack, v)
 								}
 							}
@@ -191,7 +191,7 @@ func (x Expr) Has(data any) bool {
 						default:
 							if rt := reflect.TypeOf(v); rt != nil {
 								switch rt.Kind() {
-								case reflect.Ptr, reflect.Slice, reflect.Struct, reflect.Array:
+								case reflect.Ptr, reflect.Slice, reflect.Struct, reflect.Array, reflect.Map:
 									stack = append(stack, v)
 								}
 							}
@@ -216,7 +216,7 @@ func (x Expr) Has(data any) bool {
 						default:
 							if rt := reflect.TypeOf(v); rt != nil {
 								switch rt.Kind() {
-								case reflect.Ptr, reflect.Slice, reflect.Struct, reflect.Array:
+								case reflect.Ptr, reflect.Slice, reflect.Struct, reflect.Array, reflect.Map:
 									stack = append(stack, v)
 								}
 							}
@@ -264,7 +264,7 @@ func (x Expr) Has(data any) bool {
 					default:
 						if rt := reflect.TypeOf(v); rt != nil {
 							switch rt.Kind() {
-							case reflect.Ptr, reflect.Slice, reflect.Struct, reflect.Array:
+							case reflect.Ptr, reflect.Slice, reflect.Struct, reflect.Array, reflect.Map:
 								stack = append(stack, v)
 							}
 						}
@@ -296,7 +296,7 @@ func (x Expr) Has(data any) bool {
 						default:
 							if rt := reflect.TypeOf(v); rt != nil {
 								switch rt.Kind() {
-								case reflect.Ptr, reflect.Slice, reflect.Struct, reflect.Array:
+								case reflect.Ptr, reflect.Slice, reflect.Struct, reflect.Array, reflect.Map:
 									stack = append(stack, v)
 								}
 							}
@@ -323,7 +323,7 @@ func (x Expr) Has(data any) bool {
 						default:
 							if rt := reflect.TypeOf(v); rt != nil {
 								switch rt.Kind() {
-								case reflect.Ptr, reflect.Slice, reflect.Struct, reflect.Array:
+								case reflect.Ptr, reflect.Slice, reflect.Struct, reflect.Array, reflect.Map:
 									stack = append(stack, v)
 								}
 							}
@@ -351,7 +351,7 @@ func (x Expr) Has(data any) bool {
 						default:
 							if rt := reflect.TypeOf(v); rt != nil {
 								switch rt.Kind() {
-								case reflect.Ptr, reflect.Slice, reflect.Struct, reflect.Array:
+								case reflect.Ptr, reflect.Slice, reflect.Struct, reflect.Array, reflect.Map:
 									stack = append(stack, v)
 								}
 							}
@@ -379,7 +379,7 @@ func (x Expr) Has(data any) bool {
 						default:
 							if rt := reflect.TypeOf(v); rt != nil {
 								switch rt.Kind() {
-								case reflect.Ptr, reflect.Slice, reflect.Struct, reflect.Array:
+								case reflect.Ptr, reflect.Slice, reflect.Struct, reflect.Array, reflect.Map:
 									stack = append(stack, v)
 								}
 							}
@@ -539,7 +539,7 @@ func (x Expr) Has(data any) bool {
 						default:
 							if rt := reflect.TypeOf(v); rt != nil {
 								switch rt.Kind() {
-								case reflect.Ptr, reflect.Slice, reflect.Struct, reflect.Array:
+								case reflect.Ptr, reflect.Slice, reflect.Struct, reflect.Array, reflect.Map:
 									stack = append(stack, v)
 								}
 							}
@@ -595,7 +595,7 @@ func (x Expr) Has(data any) bool {
 						default:
 							if rt := reflect.TypeOf(v); rt != nil {
 								switch rt.Kind() {
-								case reflect.Ptr, reflect.Slice, reflect.Struct, reflect.Array:
+								case reflect.Ptr, reflect.Slice, reflect.Struct, reflect.Array, reflect.Map:
 									stack = append(stack, v)
 								}
 							}
@@ -619,7 +619,7 @@ func (x Expr) Has(data any) bool {
 						default:
 							if rt := reflect.TypeOf(v); rt != nil {
 								switch rt.Kind() {
-								case reflect.Ptr, reflect.Slice, reflect.Struct, reflect.Array:
+								case reflect.Ptr, reflect.Slice, reflect.Struct, reflect.Array, reflect.Map:
 									stack = append(stack, v)
 								}
 							}
@@ -658,7 +658,7 @@ func (x Expr) Has(data any) bool {
 						default:
 							if rt := reflect.TypeOf(v); rt != nil {
 								switch rt.Kind() {
-								case reflect.Ptr, reflect.Slice, reflect.Struct, reflect.Array:
+								case reflect.Ptr, reflect.Slice, reflect.Struct, reflect.Array, reflect.Map:
 									stack = append(stack, v)
 								}
 							}
@@ -682,7 +682,7 @@ func (x Expr) Has(data any) bool {
 						default:
 							if rt := reflect.TypeOf(v); rt != nil {
 								switch rt.Kind() {
-								case reflect.Ptr, reflect.Slice, reflect.Struct, reflect.Array:
+								case reflect.Ptr, reflect.Slice, reflect.Struct, reflect.Array, reflect.Map:
 									stack = append(stack, v)
 								}
 							}
@@ -746,7 +746,7 @@ func (x Expr) Has(data any) bool {
 					default:
 						if rt := reflect.TypeOf(v); rt != nil {
 							switch rt.Kind() {
-							case reflect.Ptr, reflect.Slice, reflect.Struct, reflect.Array:
+							case reflect.Ptr, reflect.Slice, reflect.Struct, reflect.Array, reflect.Map:
 								stack = append(stack, v)
 							}
 						}
